@@ -56,7 +56,8 @@ PROPS = {
         "theorems": T("C15", ["recogniseBare_iff", "recognise_iff_immutable", "recognise_iff_testonly", "recognise_iff_mutable",
                                "keyword_exact_list", "keyword_exact_implements", "keyword_exact_bare", "list_names_valid",
                                "constructor_names", "ignore_codes_upper", "prefilter_complete", "near_miss_inert",
-                               "acceptAfter_iff", "list_complete", "constructor_complete", "packageonly_complete", "ignore_complete"]),
+                               "acceptAfter_iff", "list_complete", "constructor_complete", "packageonly_complete", "ignore_complete",
+                               "list_sound", "constructor_sound"]),
         "suites": ["gram", ("prog", {"focus": "ANN:IKTMP"})],
         "assumptions": [
             "comment texts are byte strings; RE2's \\s, \\w and the identifier classes are ASCII, '.' excludes only LF",
